@@ -527,3 +527,54 @@ func cmdReplay(args []string) int {
 	}
 	return rc
 }
+
+// cmdDrivers: gzv drivers — runs every registered replay driver / bounded stand-in once on the current tree without model
+// values. On the unchanged tree every driver must pass (a driver that fails there would turn a failed obligation into a
+// wrongly "reproduced" violation), except the stand-ins listed as known findings.
+func cmdDrivers(args []string) int {
+	repo, verif := "/repo", "/verif"
+	for i := 0; i+1 < len(args); i += 2 {
+		switch args[i] {
+		case "-repo":
+			repo = args[i+1]
+		case "-verif":
+			verif = args[i+1]
+		}
+	}
+	known, _ := loadKnownFindings(filepath.Join(verif, "known_findings.json"))
+	seen := map[string]bool{}
+	rc := 0
+	for _, d := range loadDrivers(verif) {
+		d := d
+		key := d.File + "|" + d.Test
+		if seen[key] {
+			continue
+		}
+		seen[key] = true
+		tmp, _ := os.MkdirTemp("", "gzv-drivers-")
+		t0 := time.Now()
+		rr := runDriver(repo, verif, &d, map[string]string{"TIER": "quick"}, tmp)
+		os.RemoveAll(tmp)
+		status := "PASS"
+		if rr.Reproduced {
+			status = "FAIL"
+			for _, k := range known {
+				if k.Status == "known" && k.Obligation == "bounded/"+d.Test {
+					if re, err := regexp.Compile(k.InputRegex); err == nil && k.InputRegex != "" && re.MatchString(rr.Input) {
+						status = "KNOWN"
+					}
+				}
+			}
+		} else if !strings.Contains(rr.Output, "--- PASS") {
+			status = "BROKEN"
+		}
+		fmt.Printf("%-7s %-28s %-34s %5.1fs %s\n", status, d.PkgDir, d.Test, time.Since(t0).Seconds(), trunc(rr.Input, 160))
+		if status == "FAIL" || status == "BROKEN" {
+			rc = 1
+			if status == "BROKEN" {
+				fmt.Println(trunc(rr.Output, 1500))
+			}
+		}
+	}
+	return rc
+}
